@@ -17,7 +17,7 @@ theorem inv_initial (env : Env) (screens : List Screen) : AllInv env screens {} 
 theorem find_some_mem {α} {p : α → Bool} {l : List α} {a : α} (h : l.find? p = some a) :
     a ∈ l ∧ p a = true := ⟨List.mem_of_find?_eq_some h, List.find?_some h⟩
 
-theorem step_inv (env : Env) (screens : List Screen) (s : Proc) (e : Ev)
+theorem step_inv (env : Env) (happ : AppOk env) (screens : List Screen) (s : Proc) (e : Ev)
     (h : AllInv env screens s) : AllInv env screens (step true env screens s e) := by
   cases e with
   | connect cid sid rev =>
@@ -55,6 +55,12 @@ theorem step_inv (env : Env) (screens : List Screen) (s : Proc) (e : Ev)
   | setRand r =>
     simp only [step]
     exact h
+  | register hd =>
+    simp only [step]
+    exact h
+  | unregister hd =>
+    simp only [step]
+    exact h
   | proc cid =>
     simp only [step]
     cases hg : getConn s cid with
@@ -66,7 +72,7 @@ theorem step_inv (env : Env) (screens : List Screen) (s : Proc) (e : Ev)
       | some scr0 =>
         simp only
         have hmem : c0 ∈ s.conns := (find_some_mem hg).1
-        have hsame := procConn_same true env scr0 s.handlers s.rand c0
+        have hsame := procConn_same true env scr0 s.handlers s.legacy s.rand c0
         intro c hc scr hscr hn
         simp only [List.mem_map] at hc
         obtain ⟨d, hd, rfl⟩ := hc
@@ -77,15 +83,15 @@ theorem step_inv (env : Env) (screens : List Screen) (s : Proc) (e : Ev)
           have hscr0 : scr = scr0 := by rw [hs0] at hscr; exact (Option.some.inj hscr).symm
           subst hscr0
           have hn0 : NeedsAuth scr c0 := ⟨hn.1, by rw [← h3]; exact hn.2⟩
-          exact procConn_inv env scr s.handlers s.rand hn0 (h c0 hmem scr hs0 hn0)
+          exact procConn_inv env happ scr s.handlers s.legacy s.rand hn0 (h c0 hmem scr hs0 hn0)
         · rw [if_neg hcond] at hscr hn ⊢
           exact h d hd scr hscr hn
 
-theorem run_inv (env : Env) (screens : List Screen) (evs : List Ev) (s : Proc)
+theorem run_inv (env : Env) (happ : AppOk env) (screens : List Screen) (evs : List Ev) (s : Proc)
     (h : AllInv env screens s) : AllInv env screens (run true env screens s evs) := by
   induction evs generalizing s with
   | nil => exact h
-  | cons e es ih => exact ih _ (step_inv env screens s e h)
+  | cons e es ih => exact ih _ (step_inv env happ screens s e h)
 
 /-! ### the password checkers -/
 
@@ -136,6 +142,8 @@ def Ev.foreign (cid : Nat) : Ev → Bool
   | .proc c => c != cid
   | .peerClose c => c != cid
   | .setRand _ => true
+  | .register _ => true
+  | .unregister _ => true
 
 theorem find_map_other {p : Conn → Bool} {f : Conn → Conn} (l : List Conn)
     (h1 : ∀ d, p (f d) = p d) (h2 : ∀ d, p d = true → f d = d) :
@@ -192,6 +200,8 @@ theorem getConn_foreign (fixed : Bool) (env : Env) (screens : List Screen) (s : 
       have hne : (d.id == c) = false := by simp [this]; exact fun h => hf h.symm
       simp [hne]
   | setRand r => rfl
+  | register hd => rfl
+  | unregister hd => rfl
   | proc c =>
     simp only [Ev.foreign, bne_iff_ne, ne_eq] at hf
     simp only [step]
@@ -204,7 +214,7 @@ theorem getConn_foreign (fixed : Bool) (env : Env) (screens : List Screen) (s : 
       | some scr0 =>
         simp only [getConn]
         have hid : c0.id = c := by simpa using (find_some_mem hg).2
-        have hsame := (procConn_same fixed env scr0 s.handlers s.rand c0).1
+        have hsame := (procConn_same fixed env scr0 s.handlers s.legacy s.rand c0).1
         apply find_map_other
         · intro d
           by_cases hd : (d.id == c) = true
@@ -253,14 +263,14 @@ theorem getConn_recv (fixed : Bool) (env : Env) (screens : List Screen) (s : Pro
 theorem getConn_proc (fixed : Bool) (env : Env) (screens : List Screen) (s : Proc) (cid : Nat)
     (c : Conn) (scr : Screen) (hg : getConn s cid = some c) (hs : screens[c.screen]? = some scr) :
     getConn (step fixed env screens s (.proc cid)) cid =
-      some (procConn fixed env scr s.handlers s.rand c).1 := by
+      some (procConn fixed env scr s.handlers s.legacy s.rand c).1 := by
   have hid : c.id = cid := by simpa using (find_some_mem hg).2
   simp only [step]
   rw [hg]
   dsimp only
   rw [hs]
   dsimp only [getConn]
-  have hsame := (procConn_same fixed env scr s.handlers s.rand c).1
+  have hsame := (procConn_same fixed env scr s.handlers s.legacy s.rand c).1
   rw [find_map_self]
   · simp only [getConn] at hg
     rw [hg]
